@@ -298,6 +298,12 @@ def run(ctx, P, cs):
                          "replay_cmd": "%s one '%s'" % (bins[prof], pl), "no_failing_input": True})
     for prof, l, pl, res in results[:2] + results[-2:]:
         samples.append({"history": l, "profile": prof, "fate": res["fate"], "trace_tail": res["lines"][-2:]})
+    extra = {}
+    if ctx.tier == "thorough" and mbin:
+        xc = model.crosscheck_extraction([j[2] for j in jobs], mtr)
+        extra["extraction_crosscheck_vm_compute"] = {"histories": xc["checked"], "ok": xc["ok"]}
+        if not xc["ok"]:
+            cs["failed"].append({"what": "extraction", "detail": "vm_compute inside Coq and the extracted OCaml program disagree: " + xc["log"]})
     cov = {"evaluations": nruns, "distinct_nontrivial": len(nontrivial),
            "rule": "histories = committed corpus (runs first) + seeded generator stream of this property (85+% valid "
                    "operations, separate malformed arguments, all six storage states, 12 element classes); each runs on the "
@@ -306,4 +312,5 @@ def run(ctx, P, cs):
            "traces_validated_against_impl": compared, "trace_lines_compared": lines_compared,
            "operation_histogram": ops_hist, "outcome_histogram": out_hist, "fate_histogram": fate_hist, "samples": samples,
            "model": minfo, "correspondence_mismatches": len(mism), "impl_wall_s": round(time.time() - t0, 1)}
+    cov.update(extra)
     return {"violations": viol, "mismatches": mism, "coverage": cov}
